@@ -11,13 +11,13 @@ Section C19.
   Variable fw_text : bytes -> args -> bytes.
 
   (* for EVERY input byte string — so every way the stream can end: at a request boundary, inside a request, after a
-     malformed frame, after QUIT — every handler and both admission outcomes: an admitted connection is registered
+     malformed frame, after QUIT — every handler and both entry outcomes: an let_in connection is registered
      exactly once, first; deregistered exactly once and closed exactly once, last, in that order; nothing in between
      touches registry or socket.  A connection whose client certificate is rejected is closed and never registered. *)
   Theorem C19_released : forall ss hs tls input,
-    (admitted ss tls = true /\ exists mid, trace hstate (serve hstate handle regexp_src fw_text ss hs tls input) = EvRegister :: mid ++ [EvDeregister; EvClose]
+    (let_in ss tls = true /\ exists mid, trace hstate (serve hstate handle regexp_src fw_text ss hs tls input) = EvRegister :: mid ++ [EvDeregister; EvClose]
                                           /\ existsb is_conn_ev mid = false) \/
-    (admitted ss tls = false /\ trace hstate (serve hstate handle regexp_src fw_text ss hs tls input) = [EvClose]).
+    (let_in ss tls = false /\ trace hstate (serve hstate handle regexp_src fw_text ss hs tls input) = [EvClose]).
   Proof. exact (serve_released hstate handle regexp_src fw_text). Qed.
 
   (* the loop always comes to an end (it cannot spin on any input), which is what lets the deferred release run *)
